@@ -1014,7 +1014,9 @@ func (w *ctxWalker) descends(fn *ssa.Function, v ssa.Value, d int, seen map[ctxK
 		}
 		nCallers := 0
 		for _, e := range ir.Callers(c.G, fn) {
-			if e.Site == nil || !c.P.IsLib(e.Caller.Func) || (w.scope != nil && !w.scope[e.Caller.Func]) {
+			// (a bound-method wrapper — `h.serveGet` stored in a table — forwards its parameters: followed like a caller)
+			wrapper := e.Caller.Func.Synthetic != "" && strings.Contains(e.Caller.Func.Synthetic, "bound")
+			if e.Site == nil || (!c.P.IsLib(e.Caller.Func) && !wrapper) || (w.scope != nil && !w.scope[e.Caller.Func] && !wrapper) {
 				continue
 			}
 			cc := e.Site.Common()
